@@ -38,6 +38,9 @@ type topoOp struct {
 	At      int `json:"at"`
 	Replica int `json:"replica"`
 	To      int `json:"to"`
+	// Swap: instead of re-parenting, the replica exchanges its address with a replica of another master (both keep their node
+	// id and their master; only the address each id is announced under changes)
+	Swap bool `json:"swap,omitempty"`
 }
 
 type env struct {
@@ -291,7 +294,7 @@ func TestRandomCommands(t *testing.T) {
 		n := rapid.IntRange(1, 25).Draw(t, "n")
 		if c.Masters >= 2 && c.Replicas >= 1 && rapid.IntRange(0, 2).Draw(t, "topo") == 0 {
 			for k, m := 0, rapid.IntRange(1, 2).Draw(t, "ntopo"); k < m; k++ {
-				c.Topo = append(c.Topo, topoOp{At: rapid.IntRange(0, n-1).Draw(t, "at"), Replica: rapid.IntRange(0, 5).Draw(t, "trep"), To: rapid.IntRange(0, 2).Draw(t, "tto")})
+				c.Topo = append(c.Topo, topoOp{At: rapid.IntRange(0, n-1).Draw(t, "at"), Replica: rapid.IntRange(0, 5).Draw(t, "trep"), To: rapid.IntRange(0, 2).Draw(t, "tto"), Swap: rapid.Bool().Draw(t, "swap")})
 			}
 		}
 		for i := 0; i < n; i++ {
@@ -356,10 +359,23 @@ func runCase(c cmdCase) (bool, *verdict) {
 			nm := ms[op.To%len(ms)]
 			w.Lock()
 			cur := w.Nodes[r].Master
-			if nm == cur {
-				nm = ms[(op.To+1)%len(ms)]
+			if op.Swap {
+				// the node listening at r's address takes over the identity (id, master) of a replica of another master and vice versa
+				for k := 0; k < len(reps); k++ {
+					o := w.Nodes[reps[(op.To+k)%len(reps)]]
+					if o.Master != cur {
+						n1 := w.Nodes[r]
+						n1.ID, o.ID = o.ID, n1.ID
+						n1.Master, o.Master = o.Master, n1.Master
+						break
+					}
+				}
+			} else {
+				if nm == cur {
+					nm = ms[(op.To+1)%len(ms)]
+				}
+				w.Nodes[r].Master = nm
 			}
-			w.Nodes[r].Master = nm
 			w.Unlock()
 			// the proxy learns the new replica sets with its periodic refresh (50 ms here); two successes: the first may
 			// have been under way when the change happened
